@@ -5,7 +5,7 @@ the model's) + oracles on the real code: true objective at return <= at start, n
 deterministic budget prefixes (max_iter 0..6, max_epochs 1..20 around the extrapolation period)."""
 from .solver_common import run_parallel, run_bbox
 
-LEAN_MODULES = ["Skglm.Properties.C03", "Skglm.Properties.BCD", "Skglm.Properties.ProxNewton", "Skglm.Properties.MultiTask", "Skglm.Properties.GramCD"]
+LEAN_MODULES = ["Skglm.Properties.C03", "Skglm.Properties.BCD", "Skglm.Properties.ProxNewton", "Skglm.Properties.ProxNewtonDir", "Skglm.Properties.MultiTask", "Skglm.Properties.GramCD"]
 
 
 def run(ctx, rep):
@@ -13,10 +13,14 @@ def run(ctx, rep):
                 "step range) + for each case the budget ladders max_iter in {0,1,2,3,4,6} and max_epochs in "
                 "{1,2,5,6,7,8,12,13,14,20}; each solve is one evaluation; non-trivial = at least one outer iteration")
     run_parallel(ctx, rep, oracles=["descent", "budget"], n_quick=7, n_thorough=80)
+    # datafits whose value reads the coefficients themselves (the SVC dual: ||yXT w||^2 / 2 - sum(w)), not only the model
+    # fit: the guarded acceptance must evaluate the candidate's own coefficients
+    run_parallel(ctx, rep, oracles=["descent", "budget"], n_quick=24, n_thorough=200, combos=[("svc", "box")] * 2)
     run_bbox(ctx, rep, oracles=["descent"], ladder=True, solvers_=["ProxNewton", "GramCD", "GroupBCD", "GroupProxNewton", "MultiTaskBCD"], n_quick=30, n_thorough=200)
     from . import moves_common
     moves_common.run_bcd_moves(ctx, rep)
     moves_common.run_pn_linesearch(ctx, rep)
+    moves_common.run_pn_direction(ctx, rep)
     moves_common.run_mt_moves(ctx, rep)
     moves_common.run_gram_moves(ctx, rep)
 
